@@ -160,6 +160,30 @@ theorem labels_follow_input (fn : ScoreFn) (cfg : Cfg) (q t : List Dotprops) (mo
     unfold mkFrame
     split <;> simp [List.map_map, Function.comp_def]
 
+/-- **Ids only label the matrix.**  Re-labelling the neurons — in particular giving a target the id of a
+query, ids being unique only within each list — does not change a single score: the self-self
+short-cut is keyed on the position in the blaster, never on the id. -/
+theorem scores_independent_of_ids (fn : ScoreFn) (cfg : Cfg) (q q' t t' : List Dotprops) (mode : Mode)
+    (hq : q.map (·.pts) = q'.map (·.pts)) (ht : t.map (·.pts) = t'.map (·.pts)) :
+    (nblast fn cfg q t mode).map (·.vals) = (nblast fn cfg q' t' mode).map (·.vals) := by
+  have sq := selfHits_congr fn cfg.useAlpha q q' hq
+  have st := selfHits_congr fn cfg.useAlpha t t' ht
+  cases hqs : allSome (q.map fun n => selfHit fn cfg.useAlpha n.pts) with
+  | none =>
+    have h1 : nblast fn cfg q t mode = none := by unfold nblast; rw [hqs]
+    have h2 : nblast fn cfg q' t' mode = none := by unfold nblast; rw [← sq, hqs]
+    rw [h1, h2]
+  | some qs =>
+    cases hts : allSome (t.map fun n => selfHit fn cfg.useAlpha n.pts) with
+    | none =>
+      have h1 : nblast fn cfg q t mode = none := by unfold nblast; rw [hqs, hts]
+      have h2 : nblast fn cfg q' t' mode = none := by unfold nblast; rw [← sq, ← st, hqs, hts]
+      rw [h1, h2]
+    | some ts =>
+      rw [nblast_eq_def fn cfg q t mode qs ts hqs hts,
+          nblast_eq_def fn cfg q' t' mode qs ts (by rw [← sq]; exact hqs) (by rw [← st]; exact hts)]
+      exact defNblast_vals_congr fn cfg q q' t t' mode hq ht
+
 /-- Mode identities: `forward` is the forward score … -/
 theorem mode_forward (fn : ScoreFn) (cfg : Cfg) (q t : Cloud) (f : Rat) (hf : defForward fn cfg q t = some f) :
     defScore fn cfg q t .forward = some (.one f) := by
@@ -376,6 +400,12 @@ example : ((witnessLine 0 1).map (·.p)).Nodup ∧ (∀ p ∈ witnessLine 0 1, p
 example : (Gen.Smat.fcwb.bind fun tb => nblast tb.call ⟨false, true, none⟩
       [⟨5, witnessLine 0 1⟩, ⟨9, witnessLine 3 1⟩] [⟨5, witnessLine 0 1⟩] .forward).map (·.vals.map (·.map (decide <| · = 1)))
     = some [[true], [false]] := by
+  decide +kernel
+
+/-- a target carrying the query's id but a different geometry is *not* scored as a self match -/
+example : (Gen.Smat.fcwb.bind fun tb => nblast tb.call ⟨false, true, none⟩
+      [⟨5, witnessLine 0 1⟩] [⟨5, witnessLine 3 1⟩] .forward).map (·.vals.map (·.map (decide <| · < 1)))
+    = some [[true]] := by
   decide +kernel
 
 /-- the hypothesis of `normalised_le_one_alpha_partial` is satisfiable: alpha 1 on both sides -/
